@@ -134,6 +134,13 @@ def macro_graph(edges):
     return states, inits, macro
 
 
+def need_ops(edges, ops, what):
+    """vacuity guard: every action of the family must occur in the exported graph"""
+    seen = {e["act"]["op"] for e in edges}
+    if ops - seen:
+        raise vlib.Infra("the %s graph never takes %s: the cfg is vacuous" % (what, sorted(ops - seen)))
+
+
 def cover_by_config(macro, rng, max_len):
     """one vlib.path_cover per `lim` (each cap combination is a component with its own initial state)"""
     groups = collections.OrderedDict()
@@ -154,6 +161,8 @@ def rpc_obs(s):
             o = s["out"][p][i]
             if st == "handling":
                 inside.append(name)
+            if o == "maybe":
+                raise vlib.Infra("outcome 'maybe' in a settled state of the eager graph")
             if o == "answered":
                 answered.append(name)
             elif o in FAIL_OUT or ((s["peersClosed"] or not s["loopOn"][p]) and st != "new"):
@@ -178,6 +187,9 @@ def leg_r_rpc(wd, tier, binary, verdict, mutate=None):
     r = vlib.run_tlc(wd, "MCLimits", "Limits_rpc_edges.cfg", workers=1, timeout=900)
     vlib.tlc_must_pass(r, "Limits RPC edge export")
     states, inits, macro = macro_graph(r.edges)
+    need_ops(r.edges, {"Arrive", "AcquirePeer", "AcquireSubnet", "DropSubnet", "Spawn", "TgAdd", "TgRefuse", "Handle", "HandleDone",
+                       "ReleaseSubnet", "ReleasePeer", "LoopExit", "Abandon", "CloseListener", "StopBegin", "StopWait", "StopReturn",
+                       "ClosePeers", "RunExit"}, "RPC")
     rng = random.Random(vlib.seed())
     groups = []
     npaths = nsteps = 0
@@ -244,6 +256,8 @@ def leg_r_conn(wd, tier, binary, verdict):
     r = vlib.run_tlc(wd, "MCLimits", impl_cfg(wd, "Limits_conn_edges.cfg"), workers=1, timeout=900, tag="MCLimits_Limits_conn_edges")
     vlib.tlc_must_pass(r, "Limits CONN edge export")
     states, inits, macro = macro_graph(r.edges)
+    need_ops(r.edges, {"AllowCheck", "Handshake", "AddPeer", "RunPeer", "RemovePeer", "Abort", "CloseListener", "StopBegin", "StopReturn",
+                       "ClosePeers", "RunExit"}, "CONN")
     rng = random.Random(vlib.seed() + 1)
     groups = []
     npaths = total = 0
@@ -282,10 +296,12 @@ def leg_r_conn(wd, tier, binary, verdict):
     if res["counts"].get("infra"):
         raise vlib.Infra("conn replay could not set up %d paths: %s" % (res["counts"]["infra"], res.get("notes")))
     verdict.add_all(res["mismatches"])
-    capx = sum(1 for m in res["mismatches"] if "inbound-cap-exceeded" in m["sig"])
-    log("  R/conn: %d steps on real syncers, %d mismatches (%d x inbound cap exceeded), %.1fs" % (res["evaluations"], len(res["mismatches"]), capx, res["wall"]))
+    capx = res["counts"].get("cap_exceeded_paths", 0); blocked = res["counts"].get("close_blocked_paths", 0)
+    other = [m for m in res["mismatches"] if "inbound-cap-exceeded" not in m["sig"] and "close-blocked-by-unswept-peer" not in m["sig"]]
+    log("  R/conn: %d steps on real syncers; inbound cap exceeded on %d paths, Close blocked by an unswept peer on %d paths, %d other mismatches, %.1fs"
+        % (res["evaluations"], capx, blocked, len(other), res["wall"]))
     return dict(states=len(states), edges=len(r.edges), macro=len(macro), paths=npaths, cover_paths=total, steps=res["evaluations"],
-                distinct=res["distinct"], samples=res["samples"], cap_exceeded=capx, tlc=r)
+                distinct=res["distinct"], samples=res["samples"], cap_exceeded=capx, close_blocked=blocked, tlc=r)
 
 
 def tg_obs(s):
@@ -298,6 +314,7 @@ def leg_r_tg(wd, tier, binary, verdict, targets=None):
     r = vlib.run_tlc(wd, "MCLimits", "Limits_tg_edges.cfg", workers=1, timeout=600)
     vlib.tlc_must_pass(r, "Limits TG edge export")
     states, inits, macro = macro_graph(r.edges)
+    need_ops(r.edges, {"ThAdd", "ThRefuse", "ThDone", "StopBegin", "StopWait", "StopReturn"}, "TG")
     rng = random.Random(vlib.seed() + 2)
     paths = vlib.path_cover(macro, max_paths=None, rng=rng, max_len=30)
     total = len(paths)
@@ -377,11 +394,14 @@ def validate_file(wd, path, cfg, tag, verdict, max_iter=14):
 def leg_t(wd, tier, binary, verdict, race_binary=None):
     env = {"VERIF_RPC_RUNS": 36 if tier == "quick" else 400, "VERIF_CONN_RUNS": 12 if tier == "quick" else 60,
            "VERIF_TG_RUNS": 24 if tier == "quick" else 200, "VERIF_WALLET_RUNS": 3 if tier == "quick" else 9,
-           "VERIF_SHARDS": 6 if tier == "quick" else 12, "VERIF_PARALLEL": 6}
+           "VERIF_SHARDS": 3 if tier == "quick" else 10, "VERIF_PARALLEL": 6}
     res = vlib.go_run(binary, "TestDriver", wd, env=env, timeout=1500)
     if res["counts"].get("infra"):
         raise vlib.Infra("driver could not set up %d runs: %s" % (res["counts"]["infra"], res.get("notes")))
     verdict.add_all(res["mismatches"])
+    c = res["counts"]
+    if not (c.get("handlers") and c.get("answered") and c.get("failed")):
+        raise vlib.Infra("the driver's load is vacuous: %s" % c)
     files = sorted(f for f in os.listdir(wd) if f.startswith("limtrace-") and f.endswith(".ndjson"))
     t0 = time.time()
     tot_ev = tot_rej = tot_states = tot_tr = 0
@@ -458,7 +478,7 @@ def run(tier):
                                "CONN family: 3 inbound + 1-2 outbound attempts, caps {0,1,2}; TG family: 4 threads; Close/Stop at every moment; complete reachable state spaces",
                   "deviations_shown_to_fail": ["DevCapCheckThenAct -> PeerCaps", "DevSweepOnce -> StopReturns (selftest/thorough)"]},
         "replay": {"rpc": {k: rr[k] for k in ("states", "edges", "macro", "paths", "cover_paths", "steps")},
-                   "conn": {k: rc_[k] for k in ("states", "edges", "macro", "paths", "cover_paths", "steps", "cap_exceeded")},
+                   "conn": {k: rc_[k] for k in ("states", "edges", "macro", "paths", "cover_paths", "steps", "cap_exceeded", "close_blocked")},
                    "tg": {k: rt[k] for k in ("states", "edges", "macro", "paths", "cover_paths", "steps")}},
         "trace_validation": {k: tt[k] for k in ("traces", "events", "rejected", "trace_states", "rpcs", "handlers", "storm", "outbound_rounds", "close_stuck_runs")},
         "evaluations": sum(x["steps"] for x in rs) + tt["events"],
